@@ -171,12 +171,17 @@ func (i *Interface) getRecord(dbName string, dbKey string, mustBeWriteable bool)
 		return nil, db, ErrReadOnly
 	}
 
-	r = i.checkCache(dbName + ":" + dbKey)
-	if r != nil {
-		if !i.options.hasAccessPermission(r) {
-			return nil, db, ErrPermissionDenied
+	// A cached copy may be outdated: the record may have been marked as secret
+	// or crown jewel through another interface in the meantime. An interface
+	// without all permissions must therefore not authorize a write with it.
+	if !mustBeWriteable || i.options.HasAllPermissions() {
+		r = i.checkCache(dbName + ":" + dbKey)
+		if r != nil {
+			if !i.options.hasAccessPermission(r) {
+				return nil, db, ErrPermissionDenied
+			}
+			return r, db, nil
 		}
-		return r, db, nil
 	}
 
 	r, err = db.Get(dbKey)
@@ -215,12 +220,16 @@ func (i *Interface) getMeta(dbName string, dbKey string, mustBeWriteable bool) (
 		return nil, db, ErrReadOnly
 	}
 
-	r := i.checkCache(dbName + ":" + dbKey)
-	if r != nil {
-		if !i.options.hasAccessPermission(r) {
-			return nil, db, ErrPermissionDenied
+	// As in getRecord, do not authorize a write with a possibly outdated cached
+	// copy if the interface does not have all permissions.
+	if !mustBeWriteable || i.options.HasAllPermissions() {
+		r := i.checkCache(dbName + ":" + dbKey)
+		if r != nil {
+			if !i.options.hasAccessPermission(r) {
+				return nil, db, ErrPermissionDenied
+			}
+			return r.Meta(), db, nil
 		}
-		return r.Meta(), db, nil
 	}
 
 	m, err = db.GetMeta(dbKey)
